@@ -62,6 +62,7 @@ ZRINGS = ["zring_I", "zring_d", "zring_i64"]
 RECINT_RINGS = {"ru6_6": (6, True), "ru6_7": (6, False), "ru7_7": (7, True), "ru7_8": (7, False), "ru8_8": (8, True),
                 "ru8_9": (8, False)}
 MG_RINGS = {"mg6": 6, "mg7": 7, "mg8": 8}
+ALL_RING_DOMS = set(PART1 + PART2 + PART3)
 
 # Integer: op -> (n, dests, reads, scalar kind or None, value constraint tag)
 Z_OPS = {
@@ -581,6 +582,21 @@ def gen_z_cases(rng, exe, reps, cases):
                                 vals[k] = 2
                     if idx[1] == idx[2]:
                         continue
+                if op in ("divmod.i64", "divmod.u64", "div.i64", "div.u64", "div.i32", "mod.i64", "mod.u64", "trem.u64", "crem.u64", "frem.u64") and rep % 3 == 0:
+                    # the corrections for a negative dividend with a zero truncated quotient: |a| < |b|, a < 0
+                    x = rng.choice([2, 3, 101, 2 ** 31 - 1, 2 ** 62] + ([-2, -3, -(2 ** 62)] if sk.startswith("i64") else []))
+                    if sk.startswith("i32"):
+                        x = rng.choice([2, 3, 101, 2 ** 31 - 1, -2, -101])
+                    a = -rng.range(1, abs(x) - 1) if abs(x) > 1 else -1
+                    for k in range(n):
+                        if k in reads:
+                            vals[k] = a
+                if op == "divmod" and rep % 3 == 0:
+                    b = rng.choice([2, 3, -2, -3, 101, -101, 2 ** 64 + 1, -(2 ** 64) - 1])
+                    a = rng.choice([-1, 1, -(abs(b) - 1), abs(b) - 1, -abs(b), -abs(b) - 1, -7])
+                    for k in range(n):
+                        if k in reads:
+                            vals[k] = a if idx[k] == idx[2] else b
                 c = Case(exe, "Z", "-", op, n, dests, reads, idx, vals, [x] if sk else [], "Integer::" + op, Z_NAMES.get(op))
                 if not z_valid(op, tag, idx, c.vals, x) or not z_valid(op, tag, idx, c.alias_vals(), x):
                     continue
@@ -1046,7 +1062,21 @@ def main(tier, replay=None):
             d = f["case"]
             exe = d.get("exe")
             n = len(d["classes"])
-            cs = Case(exe, d["dom"], d["param"], d["op"], n, d.get("dests", [0]), d.get("reads", list(range(n))), d["classes"], d["values"], d["extra"], f["site"])
+            def num(t):
+                t = str(t)
+                return int(t) if t.lstrip("-").isdigit() else (None if t == "None" else t)
+            cs = Case(exe, d["dom"], num(d["param"]), d["op"], n, d.get("dests", [0]), d.get("reads", list(range(n))), d["classes"],
+                      [num(v) for v in d["values"]], [num(e) for e in d["extra"]], f["site"].replace(" (distinct objects)", ""))
+            if cs.dom in ALL_RING_DOMS:
+                cs.spec = ("ring", cs.dom, cs.param, cs.op, [cs.vals[k] for k in sorted(cs.reads)])
+            elif cs.dom == "Z":
+                cs.names = Z_NAMES.get(cs.op)
+                cs.spec = ("Z", cs.op, cs.extra[0] if cs.extra else None)
+            elif cs.dom == "RU":
+                cs.names = RU_NAMES.get(cs.op)
+                cs.spec = ("RU", cs.op, cs.param, cs.extra[0] if cs.extra else None)
+            elif cs.dom == "poly":
+                cs.names = POLY_NAMES.get(cs.op)
             cases.append(cs)
     else:
         ring_parts = (("rings1", PART1), ("rings2", PART2), ("rings3", PART3))
